@@ -193,6 +193,7 @@ func (b *Batch) Commit() error {
 		return err
 	}
 
+	verifPoint("commit.flushed", 0)
 	// 追加批处理完成标识记录
 	logRecord := b.db.recordPool.Get().(*datafile.LogRecord)
 	logRecord.Key = append(logRecord.Key, b.batchID.Bytes()...)
